@@ -60,10 +60,10 @@ func storedLog() (*hist, *ipfslog.IPFSLog) {
 
 // loadOpts: the option values a caller passes to the loaders; a caller may reuse them for several loads.
 type loadOpts struct {
-	lo     *ipfslog.LogOptions
-	fo     *ipfslog.FetchOptions
-	efo    *entry.FetchOptions
-	length *int
+	lo      *ipfslog.LogOptions
+	fo      *ipfslog.FetchOptions
+	efo     *entry.FetchOptions
+	length  *int
 	sources []iface.IPFSLogEntry // NewFromEntry: the supplied starting entries (default: the heads)
 }
 
